@@ -7,6 +7,7 @@ def run(ctx):
         (4, C.gen_timeout),
         (3, C.gen_shared_expiry),
         (1, C.gen_shared_group_expiry),
+        (1, C.gen_dash),
         (3, lambda r: C.gen_mixed(r, C.W_ORDERED3, nblocks=r.randrange(4, 12), p_group=0.05)),
         (2, lambda r: C.gen_mixed(r, C.W_MIXED, nblocks=r.randrange(3, 10))),
         (3, C.gen_hub),
